@@ -112,7 +112,13 @@ def _listener_reinit(h, case):
         # only 'initialising while the run thread is active' is specified: STARTING, STARTED, or STOPPING (the
         # state in which STOP_EVENT is fired, before the worker publishes STOPPED)
         # (the other notifications are only fired by a starting / running simulator)
-        if len(model.reinit_log) < 3 and (name != "STOP" or sim.run_state.name in ("STARTING", "STARTED", "STOPPING")):
+        import threading
+        from pydsol.core.simulator import SimulatorWorkerThread
+        on_run_thread = isinstance(threading.current_thread(), SimulatorWorkerThread)
+        # (a STOP notification delivered BY the run thread: that thread is obviously still active, whatever the
+        #  state variable says at that moment)
+        if len(model.reinit_log) < 3 and (name != "STOP" or on_run_thread or
+                                          sim.run_state.name in ("STARTING", "STARTED", "STOPPING")):
             before = sim.eventlist().size()
             try:
                 sim.initialize(model, sim.replication)
